@@ -180,6 +180,71 @@ theorem trees_validate_same (fuel : Nat) (base : String) {rs₁ rs₂ : Resolved
 
 end
 
+/-! ### the structural relation read the other way -/
+
+theorem listRel_flip {α β} {S : α → β → Prop} : ∀ {l : List α} {l' : List β}, ListRel S l l' →
+    ListRel (fun b a => S a b) l' l
+  | _, _, .nil => .nil
+  | _, _, .cons h1 h2 => .cons h1 (listRel_flip h2)
+
+theorem optRel_flip {α β} {S : α → β → Prop} : ∀ {o : Option α} {o' : Option β}, OptRel S o o' →
+    OptRel (fun b a => S a b) o' o
+  | none, none, _ => trivial
+  | some _, some _, h => h
+  | none, some _, h => h.elim
+  | some _, none, h => h.elim
+
+theorem fieldRel_flip {R : NodeId → NodeId → Prop} : ∀ {f f' : ChildField}, FieldRel R f f' →
+    FieldRel (fun b a => R a b) f' f
+  | _, _, .one hr => .one (optRel_flip hr)
+  | _, _, .many (cs := cs) (cs' := cs') hr => by
+    refine .many ?_
+    cases cs with
+    | none =>
+      cases cs' with
+      | none => trivial
+      | some _ => exact hr.elim
+    | some l =>
+      cases cs' with
+      | none => exact hr.elim
+      | some l' => exact listRel_flip (hr : ListRel R l l')
+  | _, _, .keyed (cs := cs) (cs' := cs') hr => by
+    refine .keyed ?_
+    cases cs with
+    | none =>
+      cases cs' with
+      | none => trivial
+      | some _ => exact hr.elim
+    | some l =>
+      cases cs' with
+      | none => exact hr.elim
+      | some l' =>
+        have h : ListRel (KeyRel R) l l' := hr
+        exact ListRel.imp (fun a b (hab : KeyRel R b a) => (⟨hab.1.symm, hab.2⟩ : KeyRel (fun b a => R a b) a b))
+          (listRel_flip h)
+
+/-- a shallow copy read the other way -/
+theorem NodeRel.flip {R : NodeId → NodeId → Prop} {n n' : Node} (h : NodeRel R n n') :
+    NodeRel (fun b a => R a b) n' n := by
+  obtain ⟨fs', hrel, rfl⟩ := h
+  refine ⟨n.childFields, ?_, (setChildFields_shallow n fs').symm⟩
+  rw [childFields_set hrel]
+  exact ListRel.imp (fun _ _ hf => fieldRel_flip hf) (listRel_flip hrel)
+
+theorem TreeSim.flip {S : NodeId → NodeId → Prop} {st₁ st₂ : Store} (h : TreeSim S st₁ st₂) :
+    TreeSim (fun b a => S a b) st₂ st₁ := by
+  intro b a hab
+  have := h a b hab
+  cases e1 : st₁.get? a with
+  | none =>
+    cases e2 : st₂.get? b with
+    | none => trivial
+    | some _ => rw [e1, e2] at this; exact this.elim
+  | some n₁ =>
+    cases e2 : st₂.get? b with
+    | none => rw [e1, e2] at this; exact this.elim
+    | some n₂ => rw [e1, e2] at this; exact NodeRel.flip this
+
 end RIso
 end Go
 end JSV
